@@ -339,9 +339,22 @@ distinct = distinct resolution patterns / (history length, key set, sequence, fl
         let mut model = Model { windows: HashMap::new() };
         let mut keymap: HashMap<Key, ChunkCharacteristics> = HashMap::new();
         let upload = Utc.timestamp_millis_opt(1_723_552_410_000 + rng.below(1_000_000) as i64).single();
-        let hist_len = rng.urange(0, 50);
+        // one history in ten is long and spread over every key there is (3 chunk types x 6
+        // waveform classes x 4 channel configurations = 72): a statistics value holds them all
+        let every_key = hi % 10 == 4;
+        let hist_len = if every_key { rng.urange(80, 160) } else { rng.urange(0, 50) };
         // a few keys, biased to the ones the cut list uses
         let mut keys: Vec<(ChunkType, u8, u8)> = cuts.iter().map(|c| (ChunkType::Intermediate, c.1, c.2)).collect();
+        if every_key {
+            for t in [ChunkType::Start, ChunkType::Intermediate, ChunkType::End] {
+                for wf in 0..6u8 {
+                    for ch in 0..4u8 {
+                        keys.push((t, wf, ch));
+                    }
+                }
+            }
+            ctx.obs.count("histories_spread_over_all_72_keys", 1);
+        }
         keys.push((ChunkType::End, 1, 0));
         keys.push((ChunkType::Start, 2, 1));
         if let Some(c) = cuts.last() {
